@@ -23,6 +23,12 @@ def main():
         pass
     import logging
     logging.disable(logging.CRITICAL)
+    # every scratch project / temp file of this run (also of pool workers and subprocesses) lives under
+    # one directory that is removed when the run ends
+    import tempfile
+    scratch = tempfile.mkdtemp(prefix="verif-%s-" % a.pid)
+    tempfile.tempdir = scratch
+    os.environ["TMPDIR"] = scratch
     try:
         mod = importlib.import_module("props." + a.pid)
         obs = mod.obligations(a.tier)
@@ -33,8 +39,13 @@ def main():
         sys.exit(2)
     if a.replay:
         sys.exit(runner.do_replay(a.pid, a.replay, obs))
-    sys.exit(runner.run_property(a.pid, obs, a.tier,
-                                 assumptions=getattr(mod, "ASSUMPTIONS", ())))
+    rc = 2
+    try:
+        rc = runner.run_property(a.pid, obs, a.tier, assumptions=getattr(mod, "ASSUMPTIONS", ()))
+    finally:
+        import shutil
+        shutil.rmtree(scratch, True)
+    sys.exit(rc)
 
 
 if __name__ == "__main__":
